@@ -51,7 +51,7 @@ type Cfg struct {
 	// 64-byte literal/collect buffers of the parsers and the encoders' scratch
 	// space), with Long >= 2 also 255, 256 and 300 (where the length prefix of CBOR
 	// and UBJSON changes width); Long 3: lengths equal to UBJSON marker bytes; Long 4:
-	// 1 KiB / 4 KiB boundaries; Long 5: every length from 2 to 40. First byte symbolic, the rest a fixed pattern.
+	// 1 KiB / 4 KiB boundaries; Long 5: every length from 2 to 40; Long 6: 2^15 and 2^16 boundaries. First byte symbolic, the rest a fixed pattern.
 	Long int
 	// Special: strings and keys may also be one of a fixed set of texts that encoders
 	// and parsers treat specially (line/paragraph separators, HTML characters, DEL,
@@ -118,6 +118,11 @@ func (c *Cfg) str(what string) []byte {
 			// beyond the sizes at which buffers are grown, kept or dropped (1 KiB, 4 KiB)
 			lens = []int{0, 1023, 1025, 1100, 4095, 4097, 4200}
 			max = 6
+		}
+		if c.Long == 6 {
+			// where a 16-bit length prefix stops being enough (UBJSON 'I' is signed)
+			lens = []int{0, 32767, 32768, 65535, 65536}
+			max = 4
 		}
 		if c.Long == 5 {
 			// every length 2..40: the encoders' 16-byte scratch buffers, the 24-value
